@@ -264,8 +264,18 @@ def provOf (fn : String) : Prov :=
   | some "fresh" => .fresh
   | _ => .input
 
+/-- storage of the byte slices the packet reader hands out (`Gen.readerProv`, regenerated on every run
+    from every return statement of the method): `fresh` only when the syntax shows a slice made in the call -/
+def readerProvOf (fn : String) : Prov :=
+  match Gen.readerProv.lookup fn with
+  | some "fresh" => .fresh
+  | some "view" => .input
+  | _ => .pool
+
 def factsFromSource : OwnFacts :=
   { Own.facts with
+    readNBytes := readerProvOf "packet.(*Reader).ReadNBytes",
+    readerBytes := readerProvOf "packet.(*Reader).Bytes",
     parseOptions := provOf "smgp.ParseOptions",
     readOptions := if provOf "smgp.ReadOptions" = .fresh ∧ provOf "smpp.ReadTLVs" = .fresh ∧ provOf "smpp.ReadTLVs1" = .fresh
       then .fresh else .input,
